@@ -9,7 +9,7 @@ MANIFEST = {
             "canonical projection); the model is tied to the code on every run by evaluating it (vm_compute) against the real "
             "SortOrderedComponents on generated multisets and against invocation logs of processors, runners and loaders "
             "in real App.Run starts and of the loaders at every Initialize of a multi-step history on one Configure "
-            "(c12_resort: sorting a stored result together with later registrations = sorting everything); instantiation-aware post-processors next to plain ones, the callbacks around instantiation as sequences of their own",
+            "(c12_resort: sorting a stored result together with later registrations = sorting everything); instantiation-aware post-processors next to plain ones, the callbacks around instantiation as sequences of their own; loader histories that hand a configured loader over once more",
     "design_ref": "DESIGN.md 5 C12",
     "note": "trusted: Coq kernel + vm_compute; hand-written model of SortOrderedComponents; Go harness and generators; "
             "sort.Slice assumed only to permute (the oracle re-checks sortedness on each output)",
@@ -75,6 +75,11 @@ def gen_hist(rng, cid):
             op = "set" if rng.random() < (0.5 if first else 0.06) else "add"
             steps.append({"op": op, "ids": g[i:i + k]})
             i += k
+        if ph > 0 and rng.random() < 0.15:
+            # a loader that is already configured is handed over once more: it is then configured twice, and read twice
+            seen = [x for st in steps if st["op"] != "init" for x in st["ids"]]
+            if seen:
+                steps.append({"op": "add", "ids": [rng.choice(seen)]})
         steps.append({"op": "init", "ids": []})
         if rng.random() < 0.07:
             steps.append({"op": "init", "ids": []})
